@@ -154,17 +154,19 @@ Definition spec_panic_ok (sc : scope) (pattern : bytes) (params : list (bytes * 
 
 (* ---------- observation of a managed transaction (Updates / View) ---------- *)
 
+Definition route_eqb (a b : bytes * N) : bool := bytes_eqb (fst a) (fst b) && N.eqb (snd a) (snd b).
+
 Record tobs := {
-  t_out : tout;               (* how Updates / View ended (panic value identity checked in Go) *)
-  t_routes : list bytes;      (* registered patterns afterwards, sorted *)
-  t_followup_ok : bool;
+  t_out : tout;                  (* how Updates / View / the helper ended (panic value identity checked in Go) *)
+  t_routes : list (bytes * N);   (* afterwards: (method+" "+pattern, version of the handler a request reaches), sorted *)
+  t_views_agree : bool;          (* Iter().All, Has and one request per route tell the same route set *)
+  t_followup_ok : bool;          (* a later request (to an unregistered path) is answered 404 without panic *)
   t_write_ok : bool
 }.
 
-(* [ending]: Some id when the transaction function panics with value number id *)
-Definition spec_txn_ok (initial : list bytes) (panics : option N) (o : tobs) : bool :=
-  t_followup_ok o && t_write_ok o
-  && match panics with
-     | Some id => tout_eqb (t_out o) (TPanic id) && list_eqb bytes_eqb (t_routes o) initial
-     | None => true
-     end.
+(* [panics]: Some id when the transaction function panics with value number id; [aborted]: the
+   transaction ended without commit (panic, error returned, explicit Abort) *)
+Definition spec_txn_ok (initial : list (bytes * N)) (panics : option N) (aborted : bool) (o : tobs) : bool :=
+  t_followup_ok o && t_write_ok o && t_views_agree o
+  && match panics with Some id => tout_eqb (t_out o) (TPanic id) | None => true end
+  && (if aborted then list_eqb route_eqb (t_routes o) initial else true).
